@@ -618,6 +618,20 @@ func (pc *pCtx) p3SpareCapacity(only string) {
 			for _, f := range level {
 				for _, b := range f.Blocks {
 					for _, ins := range b.Instrs {
+						if sl, ok := ins.(*ssa.Slice); ok {
+							// make([]T, n, c) with constant sizes is built as new [c]T followed by [:n]
+							if al, ok := sl.X.(*ssa.Alloc); ok && strings.Contains(al.Comment, "makeslice") {
+								if at0, ok := al.Type().Underlying().(*types.Pointer).Elem().Underlying().(*types.Array); ok {
+									made++
+									hi, hok := sl.High.(*ssa.Const)
+									if hok && hi.Int64() < at0.Len() && pc.spareEscapesV(sl, sl.Referrers(), level) && spare == "" {
+										spare = fmt.Sprintf("make with a capacity beyond its length at %s", pc.pos(ins.Pos()))
+										at = ins.Pos()
+									}
+								}
+							}
+							continue
+						}
 						ms, ok := ins.(*ssa.MakeSlice)
 						if !ok {
 							continue
@@ -650,14 +664,18 @@ func (pc *pCtx) p3SpareCapacity(only string) {
 // spareEscapes: the made slice is passed to a function of the library (an operator constructor taking a seed), or lives
 // in a cell that a closure below the construction level appends to.
 func (pc *pCtx) spareEscapes(ms *ssa.MakeSlice, level []*ssa.Function) bool {
+	return pc.spareEscapesV(ms, ms.Referrers(), level)
+}
+
+func (pc *pCtx) spareEscapesV(self ssa.Value, refs *[]ssa.Instruction, level []*ssa.Function) bool {
 	atLevel := map[*ssa.Function]bool{}
 	for _, f := range level {
 		atLevel[f] = true
 	}
-	for _, r := range *ms.Referrers() {
+	for _, r := range *refs {
 		switch t := r.(type) {
 		case *ssa.Call:
-			if cf := t.Common().StaticCallee(); cf != nil && cf.Pkg != nil && isRoPkg(pkgPathOf(cf)) {
+			if cf := t.Common().StaticCallee(); cf != nil && isRoPkg(pkgPathOf(cf)) {
 				return true
 			}
 		case *ssa.Store:
